@@ -127,20 +127,22 @@ Record fcase := mkFC {
   fc_items : list fitem;
   fc_slices : list (Z * Z * list ev * list ev) }.   (* a, b, m[a:b], reloaded[a:b] *)
 
-(* MemoryTimeline.add of a user item: tz=str(pattern.zone) must be an IANA key *)
-Definition store (named : bool) (it : item) : option item :=
-  match it with
-  | Pattern _ _ => if named then readd it else None           (* ZoneInfoNotFoundError *)
-  | _ => readd it
-  end.
-
 Definition bind {A B} (a : option A) (f : A -> option B) : option B :=
   match a with Some x => f x | None => None end.
 
+(* a TZID that names no zone (a fixed-offset tzinfo prints as "UTC+02:00"): icalendar hands the
+   value back without a zone, so it is read like a floating time *)
+Definition unzone (v : dtval) : dtval := match v with DTz _ w => DFloat w | _ => v end.
+Definition unresolved (v : vevent) : vevent :=
+  mkVE (unzone (ve_dtstart v))
+       (match ve_end v with EDtend e => EDtend (unzone e) | x => x end)
+       (ve_rrule v) (map unzone (ve_exdate v))
+       (ve_summary v) (ve_description v) (ve_uid v) (ve_location v).
+
 Definition corr_item (i : fitem) : bool :=
-  let st := store (fi_named i) (fi_item i) in
+  let st := readd (fi_item i) in
   let ve := bind st to_vevent in
-  let ld := bind ve load_vevent in
+  let ld := bind ve (fun v => load_vevent (if fi_named i then v else unresolved v)) in
   opt_eqb item_eqb st (fi_stored i) && opt_eqb vevent_eqb ve (fi_vevent i) &&
   opt_eqb item_eqb ld (fi_loaded i).
 
@@ -169,15 +171,8 @@ Definition no_unaligned_allday (c : fcase) : bool :=
                       | _ => true
                       end) c.
 
-(* KF-FIXEDTZ: a pattern whose tzinfo is a fixed offset *)
+(* KF-FIXEDTZ: a pattern whose tzinfo is a fixed offset (written as a TZID no reader resolves) *)
 Definition no_fixed_offset (c : fcase) : bool := forallb (fun i => fi_named i) (fc_items c).
-
-(* KF-EARLYANCHOR: a pattern anchored at or before 1970-01-02T00:00:00Z *)
-Definition no_early_anchor (c : fcase) : bool :=
-  item_all (fun it => match it with
-                      | Pattern x _ => match r_anchor (x_rule x) with Some a => DAY <? a | None => true end
-                      | _ => true
-                      end) c.
 
 (* KF-ALLDAYPAT: an all-day pattern that a DATE start cannot express *)
 Definition no_inexpressible_allday (c : fcase) : bool :=
@@ -212,6 +207,11 @@ Definition corr_load (c : lcase) : bool :=
   | Some _, None => false
   | None, _ => true
   end.
+
+(* KF-PREDTSTART: the loaded timeline reports an occurrence that starts before DTSTART *)
+Definition no_pre_dtstart (c : lcase) : bool :=
+  forallb (fun w => let '(_, _, f, _) := w in
+                    forallb (fun p => s_instant (ve_dtstart (lc_vevent c)) <=? fst p) f) (lc_wins c).
 
 (* the loaded timeline reports what the reference expansion (dateutil on the same text) reports,
    which is also what the VEVENT denotes by Spec/IcalSpec.v; all-day iff DTSTART is a DATE *)
